@@ -82,7 +82,7 @@ func (f *FieldCopyToGenerator) errAttrConversionFailure(path string, typ string)
 
 // Generate generates CopyTo fragment for a field of different kind
 func (f *FieldCopyToGenerator) Generate() *j.Statement {
-	if f.ParentIsOptionalEmbed && f.Kind != PrimitiveKind && f.Kind != CustomKind {
+	if f.ParentIsOptionalEmbed && f.Kind != PrimitiveKind {
 		return j.Block(f.genOptionalEmbedStub(), f.generate())
 	}
 
